@@ -32,8 +32,8 @@ func Generate(seed uint64, opt Options) *Spec {
 	g := &gen{r: core.NewRand(seed), s: &Spec{}}
 	g.s.Pkg = []string{"main", "gram", "zparser", "main"}[g.pick(4)]
 	g.s.OnBounds = g.chance(40)
-	g.s.TwoFiles = g.chance(30)
-	g.s.SplitLex = g.chance(50)
+	g.s.TwoFiles = g.chance(40)
+	g.s.SplitLex = g.chance(60)
 	if opt.RichLexer {
 		g.richLexer()
 	} else {
@@ -52,6 +52,10 @@ func Generate(seed uint64, opt Options) *Spec {
 
 func (g *gen) simpleLexer(lexable bool) {
 	n := 3 + g.pick(6)
+	if g.chance(15) {
+		// many terminals: two-digit terminal and state numbers in the tables
+		n = 12 + g.pick(len(litPool)-12)
+	}
 	perm := g.perm(len(litPool))
 	def := &LexMode{}
 	for i := 0; i < n; i++ {
